@@ -10,11 +10,13 @@ META = {
             "with a 2-seat operator; thorough: 5 seats with a 3-seat operator; indexes 0, above the group, 255 and values that only "
             "fit after truncation to 8 bits) and emits every case; every case is replayed on the REAL state / loop of every row "
             "(real membership validator over real operator keys, real unmarshalers, fake net.Message) and the observed reaction is "
-            "compared with the specified one.",
+            "compared with the specified one. A second module specifies what the receiving loops keep over a stream of messages "
+            "(append / set / first-wins / until-accepted) with the same predicate deciding each message; all sequences of up to 3 "
+            "messages are replayed on the real announcer, coordination follower, signing-done listener and two protocol states.",
     "note": "Trusted: the transport layer pins SenderPublicKey (not modelled); states are built with the packages' constructors and "
             "test helpers, not by running the cryptographic protocols (except GJKR phases 4 and 8, whose real Initiate takes the "
             "operating snapshot); pkg/beacon/entry signature shares are not part of the property's step list.",
-    "technique": "TLA+ decision spec with a per-step rule table, enumerated exhaustively by TLC; every case replayed on the real Receive methods / receive loops of 8 packages",
+    "technique": "TLA+ decision spec with a per-step rule table, enumerated exhaustively by TLC; every case replayed on the real Receive methods / receive loops of 8 packages; TLA+ accumulator spec of the receiving loops, all message sequences up to length 3 replayed",
     "design_ref": "DESIGN.md §4.3 C12",
 }
 SPEC = "specs/Admission"
@@ -36,9 +38,9 @@ def run(ctx):
     import os
     suffix = ctx.pick("", "_thorough")
     # 1. the property's clauses are invariants of the specified predicate, for every row (exhaustive)
+    #    (quick: the representative rows of step 2 only -- rows sharing a rule are decided by the same expression)
     if ctx.thorough:
-        r0 = ctx.tlc(SPEC, "MC_Admission", cfg="MC_Admission", label="MC_AllRows_4seats", timeout=3000)
-        r1 = ctx.tlc(SPEC, "MC_Admission", cfg="MC_Admission_thorough", label="MC_AllRows_5seats", timeout=6000)
+        ctx.tlc(SPEC, "MC_Admission", cfg="MC_Admission_thorough", label="MC_AllRows_5seats", timeout=6000)
     # 2. one representative row per rule: invariants again, and every case is emitted
     g = ctx.tlc(SPEC, "MC_Admission", cfg="MC_Gen" + suffix, workers=1, coverage=True, label="MC_Gen" + suffix,
                 dump_trace=True, timeout=ctx.pick(1800, 6000))
@@ -61,7 +63,18 @@ def run(ctx):
         r, len(by_rule[r]), sum(1 for c in by_rule[r] if c["expected"] != "ignored")) for r in rules))
     ctx.extra["steps_table"] = [{"step": r["id"], "rule": r["rule"], "accepts": r["accepts"], "others": r["others"],
                                  "observe": r["observe"]} for r in sorted(rows, key=lambda x: x["id"])]
-    # 3. replay on the real code, one harness per package
+    # 3. streams of messages: the receivers that accumulate what they admit (AdmissionLoop.tla); every
+    #    behaviour of up to 3 deliveries over an 8-letter message alphabet, for 5 steps
+    lp = ctx.tlc(SPEC, "MC_Loop", cfg="MC_Loop", workers=1, coverage=True, label="MC_Loop", timeout=ctx.pick(1800, 3600))
+    ctx.require_coverage(lp, ["DoDeliver"], "MC_Loop")
+    seqs = ctx.read_emitted(lp, "sequences.ndjson")
+    loop_steps = sorted({q["step"] for q in seqs})
+    if len(seqs) != 5 * (8 + 64 + 512) or len(loop_steps) != 5:
+        ctx.broken("expected 2920 message sequences for 5 steps, got %d for %s" % (len(seqs), loop_steps))
+    if any(not any(r["id"] == st for r in rows) for st in loop_steps):
+        ctx.broken("a loop step is not a row of the steps table: %s" % loop_steps)
+    ctx.extra["loop_steps"] = loop_steps
+    # 4. replay on the real code, one harness per package
     only = os.environ.get("VERIF_C12_ONLY")      # development aid: comma separated labels
     jobs = []
     for pkg, label in PKGS:
@@ -70,13 +83,15 @@ def run(ctx):
         prow = [r for r in rows if r["pkg"] == pkg]
         need = sorted({r["rule"] for r in prow})
         pcases = [c for rule in need for c in by_rule[rule]]
-        expected = sum(len(by_rule[r["rule"]]) for r in prow)
-        jobs.append((pkg, label, prow, pcases, expected))
+        pseqs = [q for q in seqs if q["step"].startswith(pkg + "/")]
+        expected = sum(len(by_rule[r["rule"]]) for r in prow) + len(pseqs)
+        jobs.append((pkg, label, prow, pcases, expected, pseqs))
 
     def one(job):
-        pkg, label, prow, pcases, expected = job
+        pkg, label, prow, pcases, expected, pseqs = job
         return ctx.gotest(pkg, "^TestVerif_C12_", ["c12_test.go"], extra_overlay=OV, label=label,
-                          inputs={"rows.ndjson": prow, "world.ndjson": world, "cases.ndjson": pcases},
+                          inputs={"rows.ndjson": prow, "world.ndjson": world, "cases.ndjson": pcases,
+                                  "sequences.ndjson": pseqs},
                           timeout=ctx.pick(2400, 5400))
 
     # the eight harness binaries are independent: build and run them side by side
@@ -108,7 +123,11 @@ def run(ctx):
         rule="every case of the finite input space of each rule (receiver x sender key x wire index x payload type x context "
              "mismatch x exclusion x embedded key x leader x payload class; %d cases) replayed on every row using the rule "
              "(%d row-case evaluations; thorough: every payload type of the row, quick: payload types rotated); non-trivial = "
-             "decodable messages of a type the step accepts (the admission predicate itself decides)" % (len(cases), total_expected),
+             "decodable messages of a type the step accepts (the admission predicate itself decides). Plus every sequence of "
+             "1..3 messages over an 8-letter alphabet (genuine / sibling seat / excluded member / spoofed index / outsider / own "
+             "index / other context / forbidden action or wrapped index; %d sequences) delivered to the real announcer loop, "
+             "coordination follower, signing-done listener, a GJKR state and the claim signing state, comparing what they kept"
+             % (len(cases), total_expected, len(seqs)),
         assumptions=["SenderPublicKey of a net.Message is the key the transport layer authenticated (pkg/net, not modelled here)",
                      "states are constructed with the packages' constructors / Next() chains and test helpers; only GJKR phases 4 "
                      "and 8 run the real Initiate (operating snapshot)",
